@@ -182,6 +182,21 @@ def forms_program():
     )
     F.append(
         fn(
+            # an unpacking assignment that stores into an object, at a place named by a variable
+            # the same statement has just bound: (pos, o[pos], o.m) = ...
+            "tupstore",
+            ["p"],
+            [
+                ["bind", "o", ["obj"]],
+                ["bind", "pos", V],
+                ["bind", ["t", ["pos", ["sub", "o", var("pos")], ["attr", "o", "m"]]], ["seq", 3, "tuple"]],
+                use("pos"),
+                ["ret", var("pos")],
+            ],
+        )
+    )
+    F.append(
+        fn(
             "sub",
             ["p"],
             [
@@ -241,6 +256,17 @@ def forms_program():
             [
                 ["for", ["t", ["a", "b"]], [use("a", "b"), ["pt"]], []],
                 ["ret", None],
+            ],
+        )
+    )
+    F.append(
+        fn(
+            "augwalrus",
+            ["p"],
+            [
+                ["bind", "total", V],
+                ["for", "i", [["aug", "total", ["walrus", "step", ["add", var("i"), V]]], use("total", "step")], []],
+                ["ret", var("total")],
             ],
         )
     )
@@ -701,6 +727,8 @@ def recv_program():
         {"name": "Sub", "base": "K", "init": False, "methods": [fn("other", ["self", "p"], body("y"))]},
         {"name": "E", "eq": "eq", "methods": [fn("meth", ["this", "p"], body("x"))]},
         {"name": "N", "eq": "nohash", "methods": [fn("meth", ["self", "p"], body("x"))]},
+        # instances are empty containers: false in a boolean context
+        {"name": "Z", "falsy": True, "methods": [fn("meth", ["me", "p"], body("x"))]},
         {
             "name": "W",
             "methods": [
@@ -724,6 +752,8 @@ def recv_program():
         {"name": "e3", "cls": "E", "key": 8},
         {"name": "n1", "cls": "N", "key": 7},
         {"name": "n2", "cls": "N", "key": 7},
+        {"name": "z1", "cls": "Z", "key": 1},
+        {"name": "z2", "cls": "Z", "key": 2},
         {"name": "w1", "cls": "W", "key": 1},
         {"name": "w2", "cls": "W", "key": 2},
         {"name": "i1", "cls": "W.In", "key": 1},
@@ -801,7 +831,7 @@ def decl_program():
             "u1",
             ["p"],
             [
-                ["bind", "y", V],
+                ["ann", "y", '"@A"', V],
                 ["if", [use("UG1", "y")], []],
                 ["bind", "z", ["add", var("y"), var("G1")]],
                 ["ret", var("z")],
@@ -812,7 +842,7 @@ def decl_program():
             ["p"],
             [
                 # G1 exists when the module is loaded; the scenario may delete / redefine it between calls
-                ["bind", "y", V],
+                ["ann", "y", '"@A"', V],
                 ["if", [["bind", "z", ["add", var("y"), var("G1")]], use("z")], [["bind", "z", var("y")]]],
                 ["ret", var("z")],
             ],
